@@ -24,6 +24,10 @@ func vpOctalMode(mode uint32) []byte {
 func VPH_treeInit() {
 	K := 1 + vp_Choice("entries", vp_Param("maxentries"))
 	g := NewGraph(NameStyleNone)
+	// with symbolic children the tree is kept pending by one extra unknown
+	// subtree, so that the accumulated size is inspected before recordTree
+	// (whose per-maximum branches would multiply the paths)
+	symChildren := vp_Param("symchildren") == 1
 	var data []byte
 	var want TreeSize
 	want.ExpandedTreeCount = 1
@@ -42,38 +46,44 @@ func VPH_treeInit() {
 		case 0:
 			sz := vp_U32("blobsize")
 			g.RegisterBlob(oid, counts.Count32(sz))
-			wBlobs++
-			wBytes += uint64(sz)
+			wBlobs = vpMin(wBlobs+1, vpCap32)
+			wBytes = vpSat64(wBytes, uint64(sz))
 			wantDepth = vpMax(wantDepth, 1)
 			wantLen = vpMax(wantLen, L)
 		case 1:
 			if vp_Choice("known", 2) == 1 {
-				c := TreeSize{
-					MaxPathDepth: counts.Count32(vp_Choice("cdepth", 3)), ExpandedTreeCount: counts.Count32(1 + vp_Choice("ctrees", 2)),
-					ExpandedBlobCount: counts.Count32(vp_Choice("cblobs", 2)), ExpandedBlobSize: counts.Count64(vp_U32("cbytes")),
-				}
-				if c.MaxPathDepth > 0 {
-					c.MaxPathLength = 5
+				var c TreeSize
+				if symChildren {
+					// an arbitrary finalised subtree (full-range counters)
+					c = vpFreeTreeSize("child")
+					vp_Assume(c.ExpandedTreeCount >= 1)
+					vp_Assume((c.MaxPathDepth > 0) == (c.MaxPathLength > 0))
+				} else {
+					c = TreeSize{
+						MaxPathDepth: counts.Count32(vp_Choice("cdepth", 3)), ExpandedTreeCount: counts.Count32(1 + vp_Choice("ctrees", 2)),
+						ExpandedBlobCount: counts.Count32(vp_Choice("cblobs", 2)), ExpandedBlobSize: counts.Count64(vp_U32("cbytes")),
+					}
+					if c.MaxPathDepth > 0 {
+						c.MaxPathLength = 5
+					}
 				}
 				g.treeSizes[oid] = c
-				wTrees += uint64(c.ExpandedTreeCount)
-				wBlobs += uint64(c.ExpandedBlobCount)
-				wBytes += uint64(c.ExpandedBlobSize)
-				wantDepth = vpMax(wantDepth, uint64(c.MaxPathDepth)+1)
-				if c.MaxPathLength > 0 {
-					wantLen = vpMax(wantLen, L+1+5)
-				} else {
-					wantLen = vpMax(wantLen, L)
-				}
+				wTrees = vpMin(wTrees+uint64(c.ExpandedTreeCount), vpCap32)
+				wBlobs = vpMin(wBlobs+uint64(c.ExpandedBlobCount), vpCap32)
+				wBytes = vpSat64(wBytes, uint64(c.ExpandedBlobSize))
+				wLinks = vpMin(wLinks+uint64(c.ExpandedLinkCount), vpCap32)
+				wSubs = vpMin(wSubs+uint64(c.ExpandedSubmoduleCount), vpCap32)
+				wantDepth = vpMax(wantDepth, vpMin(uint64(c.MaxPathDepth)+1, vpCap32))
+				wantLen = vpMax(wantLen, vp_IteU64(c.MaxPathLength > 0, vpMin(L+1+uint64(c.MaxPathLength), vpCap32), L))
 			} else {
 				pending++
 			}
 		case 2:
-			wLinks++
+			wLinks = vpMin(wLinks+1, vpCap32)
 			wantDepth = vpMax(wantDepth, 1)
 			wantLen = vpMax(wantLen, L)
 		case 3:
-			wSubs++
+			wSubs = vpMin(wSubs+1, vpCap32)
 			wantDepth = vpMax(wantDepth, 1)
 			wantLen = vpMax(wantLen, L)
 		}
@@ -82,6 +92,14 @@ func VPH_treeInit() {
 		data = append(data, name...)
 		data = append(data, 0)
 		data = append(data, oid.Bytes()...)
+	}
+	if symChildren {
+		pending++
+		data = append(data, "40000 zz"...)
+		data = append(data, 0)
+		data = append(data, vpMkOID('u', 1).Bytes()...)
+		K++
+		wantLen = vpMax(wantLen, 0) // the unknown subtree contributes only when it arrives
 	}
 	oid := vpMkOID('t', 9)
 	tree, _ := git.ParseTree(oid, data)
